@@ -1,12 +1,13 @@
 open Datatypes
 open Drv
-(* ---- C11 ---- idres <om> <o2> <o3> <nmods> {module} <nrefs> {ref}
-   module: <name> <sub 0|1> <prefix> <belongs-to> <nimports> {<prefix> <name>} <nincludes> {<name>}
-           <nidents> {<name> <nbases> {<base>}}
-   ref   : <sub 0|1> <module name> <base>                 (an identityref type statement inside that module)
-   all strings hex ("-" = empty); om/o2/o3 select the iteration oracles of the three map loops.
+(* ---- C11 ---- idres <o2> <o3> <nmods> {module} <nrefs> {ref}
+   module: <name> <sub 0|1> <revision> <prefix> <belongs-to> <nimports> {<prefix> <name> <revision-date>}
+           <nincludes> {<name> <revision-date>} <nidents> {<name> <nbases> {<base>}}        (in load order)
+   ref   : <sub 0|1> <full name> <base>        (an identityref type statement inside that module revision)
+   all strings hex ("-" = empty); o2/o3 select the iteration oracles of the two loops over the dictionary.
    output: "err" when an error is reported (or a ref does not resolve), "fuel" when out of fuel, otherwise
-           "ok <key>=<v>,<v>.. ... | <basekey> ..."  (keys and values hex) *)
+           "ok <key>=<decl>=<v>,<v>.. ... | <base decl> ..."  (dictionary key, the declaration filed there, its
+           Values; all hex) *)
 
 let coq_ascii_of_char c =
   let n = Char.code c in
@@ -40,15 +41,16 @@ let rec times n f = if n <= 0 then [] else let x = f () in x :: times (n - 1) f
 let read_module () =
   let name = next_s () in
   let sub = next () = "1" in
+  let rev = next_s () in
   let prefix = next_s () in
   let belongs = next_s () in
-  let imports = times (next_i ()) (fun () -> let p = next_s () in let n = next_s () in (p, n)) in
-  let includes = times (next_i ()) next_s in
+  let imports = times (next_i ()) (fun () -> let p = next_s () in let n = next_s () in let d = next_s () in ((p, n), d)) in
+  let includes = times (next_i ()) (fun () -> let n = next_s () in let d = next_s () in (n, d)) in
   let idents = times (next_i ()) (fun () ->
     let n = next_s () in
     let bases = times (next_i ()) next_s in
     { Identity.i_name = n; Identity.i_bases = bases }) in
-  { Identity.m_name = name; m_sub = sub; m_prefix = prefix; m_belongs = belongs; m_imports = imports;
+  { Identity.m_name = name; m_sub = sub; m_rev = rev; m_prefix = prefix; m_belongs = belongs; m_imports = imports;
     m_includes = includes; m_idents = idents }
 
 let hexk k = hex_of_raw (string_of_coq k)
@@ -56,22 +58,22 @@ let hexk k = hex_of_raw (string_of_coq k)
 let do_idres ts =
   toks := ts;
   try
-    let om = Identity.oracle (nat_of_int (next_i ())) in
     let o2 = Identity.oracle (nat_of_int (next_i ())) in
     let o3 = Identity.oracle (nat_of_int (next_i ())) in
     let sc = times (next_i ()) read_module in
     let refs = times (next_i ()) (fun () ->
       let sub = next () = "1" in let m = next_s () in let b = next_s () in (sub, m, b)) in
     if !toks <> [] then "bad-case" else
-    match Identity.resolve_identities om o2 o3 sc with
+    match Identity.resolve_identities o2 o3 sc with
     | None -> "fuel"
     | Some r ->
-      let bases = L.map (fun (sub, m, b) -> Identity.identityref_base sc r.Identity.r_dict sub m b) refs in
+      let bases = L.map (fun (sub, m, b) -> Identity.identityref_base sc r sub m b) refs in
       if r.Identity.r_errors <> [] || L.mem None bases then "err" else begin
         let b = Buffer.create 256 in
         Buffer.add_string b "ok";
-        L.iter (fun (k, vs) ->
+        L.iter (fun ((k, dc), vs) ->
           Buffer.add_char b ' '; Buffer.add_string b (hexk k); Buffer.add_char b '=';
+          Buffer.add_string b (hexk dc); Buffer.add_char b '=';
           Buffer.add_string b (Str_.concat "," (L.map hexk vs))) (Identity.values_list r);
         Buffer.add_string b " |";
         L.iter (function Some k -> Buffer.add_char b ' '; Buffer.add_string b (hexk k) | None -> ()) bases;
